@@ -10,7 +10,8 @@ VARIABLE l
 E == Trace[l]
 TInit == l = 0 /\ running = [w \in Workers |-> Idle] /\ done = [w \in Workers |-> 0] /\ fresh = 0 /\ seen = {}
 TNext == /\ UNCHANGED vars
-         /\ \/ l = 0 /\ l' \in {k \in 1..Len(Trace) : k % ChunkSize = 1 \/ ChunkSize = 1}
+         /\ \/ l = 0 /\ l' \in {-k : k \in {j \in 1..Len(Trace) : j % ChunkSize = 1 \/ ChunkSize = 1}}   \* enter a chunk (no check yet,
+            \/ l < 0 /\ l' = -l                                  \* so that chunk heads are checked by different workers)
             \/ l > 0 /\ l < Len(Trace) /\ l % ChunkSize # 0 /\ l' = l + 1
 TSpec == TInit /\ [][TNext]_<<l, running, done, fresh, seen>>
 PropC17(e) == e.ev = "conc" =>
